@@ -193,15 +193,20 @@ def _sh(cmd, timeout, cwd=None):
         return 124, (e.stdout or "") if isinstance(e.stdout, str) else "timeout"
 
 
-def build_coq(target: str | None, clean=False):
-    """(Re)build the Coq development (full .vo build, never -vos) for one target, under a lock."""
+def build_coq(targets):
+    """(Re)build the dependency cone of the given theory files (full .vo compilation, never -vos)."""
     os.makedirs(BUILD, exist_ok=True)
-    lock = os.path.join(BUILD, "make.lock")
-    pre = f"cd {COQ_DIR} && ./gen_project.sh && "
-    tgt = " ".join(f"theories/{t}o" for t in target) if target else "all"
-    cmd = (f"flock {lock} sh -c '{pre} timeout 3000 make -j{NCPU} {tgt} > {BUILD}/make_{os.getpid()}.log 2>&1; "
-           f"rc=$?; tail -40 {BUILD}/make_{os.getpid()}.log; rm -f {BUILD}/make_{os.getpid()}.log; exit $rc'")
-    return _sh(cmd, 3200)
+    return _sh([sys.executable, os.path.join(VERIF, "tools", "coqbuild.py")] + list(targets), 3200)
+
+
+def coqchk(prop):
+    modname = "SF." + prop.PROPS_FILE[:-2].replace("/", ".")
+    rc, out = _sh(["coqchk", "-silent", "-o", "-Q", os.path.join(COQ_DIR, "theories"), "SF", modname], 3000)
+    m = re.search(r"\* Axioms:(.*?)\n\s*\n\* Constants", out, flags=re.S)
+    axioms = " ".join(m.group(1).split()) if m else "?"
+    bad = rc != 0 or "type-in-type: <none>" not in out or "unsafe (co)fixpoints: <none>" not in out \
+        or "positivity is assumed: <none>" not in out
+    return {"rc": rc, "axioms": axioms, "ok": not bad, "tail": out[-600:] if bad else ""}
 
 
 def grep_gate():
@@ -336,8 +341,9 @@ def coq_correspondence(prop: Prop, terms: list[str]):
 # ----------------------------------------------------------------------------------------------
 def load_known(pid):
     known, fixed = [], []
-    fn = os.path.join(VERIF, "KNOWN_FINDINGS.txt")
-    if os.path.exists(fn):
+    for fn in [os.path.join(VERIF, "KNOWN_FINDINGS.txt")] + sorted(glob.glob(os.path.join(VERIF, "known", "*.txt"))):
+        if not os.path.exists(fn):
+            continue
         for line in open(fn):
             line = line.strip()
             m = re.match(r"known:\s+property=(\S+)\s+sig=(\S+)\s+(.*)", line)
@@ -411,6 +417,13 @@ def run_check(pid: str, tier: str, seed: int, replay: str | None = None) -> int:
 
     # 1. proof obligations
     po = proof_obligations(prop)
+    chk = None
+    if tier == "thorough" and not po["failed"]:
+        chk = coqchk(prop)
+        if not chk["ok"]:
+            po["failed"] = list(po["theorems"])
+            po["discharged"] = 0
+            po["log"] = "coqchk: " + chk["tail"]
 
     # 2. cases
     corpus = load_corpus(pid)
@@ -524,7 +537,7 @@ def run_check(pid: str, tier: str, seed: int, replay: str | None = None) -> int:
                sorted(set([0, len(corpus), len(cases) // 2, len(cases) - 1]) & set(range(len(cases))))]
     cov = {
         "obligations": po["obligations"], "discharged": po["discharged"],
-        "checker_cmd": f"cd /verif/coq && ./gen_project.sh && make theories/{prop.PROPS_FILE}o  # then coqc of "
+        "checker_cmd": f"/verif/tools/coqbuild.py {prop.PROPS_FILE}  # full coqc of the dependency cone; then coqc of "
                        f"'Print Assumptions <thm>' for each of: " + ", ".join(po["theorems"]),
         "trusted_base": list(prop.TRUSTED) + [
             "Coq 8.16.1 kernel (coqc, vm_compute for the correspondence evaluation; no native_compute)",
@@ -541,7 +554,11 @@ def run_check(pid: str, tier: str, seed: int, replay: str | None = None) -> int:
         "outside_model_domain": skipped, "oracle_failures": len(failures),
         "known_findings_hit": sorted(known_hit), "extended_search_cases": ext_eval,
         "input_distribution": dist, "repo": REPO,
+        "programs": len(cases), "disagreements_checked": len(mism) + len(failures),
     }
+    if chk:
+        cov["coqchk"] = {"cmd": "coqchk -silent -o -Q theories SF SF." + prop.PROPS_FILE[:-2].replace("/", "."),
+                         "axioms": chk["axioms"], "ok": chk["ok"]}
     ev = {"property_id": pid, "tier": tier, "seed": seed, "level": prop.LEVEL, "coverage": cov,
           "assumptions": list(prop.ASSUMPTIONS), "wall_s": round(time.time() - t0, 2),
           "violations": violations}
